@@ -2,6 +2,7 @@ package layerc
 
 import (
 	"fmt"
+	"time"
 
 	"verif/sim/core"
 	"verif/sim/driver"
@@ -100,6 +101,9 @@ func runProfile(j *core.Job, cc checkCfg) {
 				files["function"] = g.Source
 				doc := &CReplay{Property: cc.prop, Layer: "C", Kind: "gate", Seed: j.Seed, Batch: bn, Func: g.Func, Stage: g.Stage, Msg: g.Msg,
 					Class: "acceptance-gate " + g.Stage + ": " + firstLines(g.Msg, 1), Pkg: "p", Files: files}
+				if g.Prog != nil && len(rep.Violations) == 0 {
+					env.Shrink(g.Prog, doc, 4*time.Minute) // the first violation of a worker is minimised
+				}
 				path := ev.WriteReplay(cc.prop, int64(j.Seed), bn*1000+len(rep.Violations), doc)
 				rep.Violations = append(rep.Violations, ev.Violation{Prop: cc.prop, Class: doc.Class, Replay: path})
 			}
@@ -139,6 +143,15 @@ func runProfile(j *core.Job, cc checkCfg) {
 			sub := b.Prog.Subset(b.Prog.Closure(m.Func))
 			doc := &CReplay{Property: cc.prop, Layer: "C", Kind: "history", Oracle: m.Oracle, Seed: j.Seed, Batch: bn, Func: m.Func,
 				Files: filesOf(sub), Pkg: "p", Scenario: m.Sc, Class: m.Class, Expected: m.Expected, Observed: m.Observed, DiffAt: m.DiffAt, IR: f}
+			if len(rep.Violations) == 0 {
+				env.Shrink(b.Prog, doc, 4*time.Minute) // the first violation of a worker is minimised
+			}
+			if doc.IR != f {
+				// refresh the stored histories on the minimised program
+				if c2, _ := Reevaluate(doc); c2 != doc.Class {
+					doc.Files, doc.IR = filesOf(sub), f // minimised program does not replay identically: keep the original
+				}
+			}
 			path := ev.WriteReplay(cc.prop, int64(j.Seed), bn*1000+len(rep.Violations), doc)
 			rep.Violations = append(rep.Violations, ev.Violation{Prop: cc.prop, Class: fmt.Sprintf("%s in %s", m.Class, m.Func), Replay: path})
 		}
